@@ -29,7 +29,8 @@ Probe ==
   /\ Is("Probe")
   /\ G("C13", IF Ev.expect = "healthy"
        THEN Ev.health /\ ~Ev.notified /\ Ev.indexed /\ Ev.idok /\ (Ev.losses > 0 /\ Ev.budget # 0 => Ev.redialhooks >= 1)
-       ELSE Ev.notified /\ ~Ev.indexed)
+            /\ Ev.count = 1            \* ... and it is the only entry of the client's index (no entry left under a former id)
+       ELSE Ev.notified /\ ~Ev.indexed /\ Ev.count = 0)
   /\ UNCHANGED fired /\ Step
 DialDone == Is("DialDone") /\ Ev.ok /\ UNCHANGED fired /\ Step
 Known == {"Reset", "Hook", "CallDone", "Probe", "DialDone", "CallHang", "WaitHang", "LossUndetected"}
